@@ -78,7 +78,8 @@ will be removed.`,
 					return
 				}
 				char = "gaps"
-				nbstart, nbend, kept, rm = al.RemoveGapSites(cleanCutoff, cleanEnds)
+				// (as RemoveGapSites, but taking --ignore-n into account, like clean seqs does)
+				nbstart, nbend, kept, rm = al.RemoveCharacterSites([]uint8{align.GAP}, cleanCutoff, cleanEnds, false, false, cleanIgnoreNs, false)
 			} else if cleanChar == "MAJ" {
 				char = "maj"
 				nbstart, nbend, kept, rm = al.RemoveMajorityCharacterSites(cleanCutoff, cleanEnds, cleanIgnoreGaps, cleanIgnoreNs)
